@@ -180,3 +180,14 @@ CLAIMS['C01'] = dict(
          'keep_alive / reset_all / async_read_headers, the base-class reset is reached on every turn, or the field is on a one-symbol allow-list with its reason; SCGI, which has no reset, never reports keep-alive; '
          '(2) the read-ahead cursors - every memcpy / memmove / index out of the FastCGI record cache, FastCGI body and HTTP input buffer is proved inside its buffer (141 linear obligations) under the cursor invariants.',
     note='Assumes the cursor invariants at member-function entry and that an asynchronous read completes with at most the bytes of its buffer (stated in the evidence). The allow-list (17 symbols) is part of the trusted base.')
+
+CLAIMS['C03'] = dict(
+    category='other',
+    engine='cppcms-facts + vlib (linbound) rules',
+    technique='static analysis: gate-edge domination and pairing on the CFG, linear range proofs of record header fields, literal/length table agreement, computed reset sets, argument-provenance of re-queued buffers',
+    text='Byte-exactness under arbitrary short-write schedules, gzip content and buffer growth arithmetic are value properties and are NOT decided. Decided necessary conditions: each of the three format_output overriders emits the header block exactly on the path where its written-flag was false and sets the flag there, '
+         'the flag is cleared only at request boundaries; FastCGI: content_length / padding_length stores are proved in range, the pre-built 65535-byte record header is sent only when the same call prepared it (in_size > 65535 proved at the use - the rule that catches a >= slip at the record boundary), '
+         'padding rounds to 8, the END_REQUEST block is sent exactly when completed and is STDOUT(0)+END_REQUEST(8, request complete) with the request id; gzip stream finished only while open, response::finalize closes every buffer once; every (literal, length) pair agrees (chunk trailers 5/2/7); '
+         'chunk = hex size line + data + CRLF, terminator only when completed, Transfer-Encoding iff chunking, Content-Length only for a complete single write; every output-side field is reset by reset_all/keep_alive/set_response_headers or survives by design; '
+         'after a short write the re-queued data is exactly (buffer written)+(bytes written), new data alone only when nothing was sent, pending output dropped only when everything was sent, the async continuation advances by exactly n.',
+    note='Not decided: the arithmetic inside append_pending / async_io_buf, gzip content, header formatter agreement (response_headers.h), cache tee. The 17-symbol allow-list of C01 applies.')
